@@ -22,8 +22,8 @@ META = {
     'level': 'exploration',
     'level_text': (
         'Runtime oracle: every file written to a fresh CAS or WAV image must, after the device is re-attached in a new Session, be found by '
-        'name with the same type letter, with exactly the written contents (data files: bytes via INPUT$ / lines via LINE INPUT# and EOF '
-        'true exactly at the end; programs: host bytes of SAVE-to-disk after LOAD equal those before SAVE-to-tape, formats B, A, P; memory '
+        'name with the same type letter, with exactly the written contents (data files: read back through a seeded mix of INPUT$(k,#1) with k = 1..255 not aligned to the 255-byte tape records, LINE INPUT# and INPUT#, EOF 0 before every piece and '
+        'true exactly at the end, concatenation = what was written; programs: host bytes of SAVE-to-disk after LOAD equal those before SAVE-to-tape, formats B, A, P; memory '
         'images: BLOADed bytes equal BSAVEd bytes and nothing beyond the length is touched); Found/Skipped messages must list the tape in '
         'order; a file read directly from a fresh attach must skip exactly the files before it. Directed core in both tiers: every contents '
         'length 245..265 and 500..520 for each of the 6 file kinds on CAS, each followed by a second file (D9 shape: 254-byte data file + '
@@ -44,7 +44,7 @@ META = {
         'thorough': 'same sweep plus 755..775 and 1010..1030',
     },
     'require_counters': {'any': ['tapes', 'files_written', 'files_read_back', 'skipped_messages', 'found_messages', 'wav_tapes',
-                                 'boundary_length_files', 'direct_reads_with_skips', 'eof_checks', 'zero_length_memory_images', 'empty_programs']},
+                                 'boundary_length_files', 'direct_reads_with_skips', 'eof_checks', 'zero_length_memory_images', 'empty_programs', 'inputstr_reads_across_record_boundary', 'line_input_reads']},
     'timeout': {'quick': 900, 'thorough': 10800},
 }
 
@@ -151,6 +151,7 @@ class Tape(object):
         self.mount = os.path.join(self.root, 'c')
         self.expected = []     # per file: dict(name, letter, kind, contents..., boundary)
         self.lengths_written = set()
+        self.read_calls = 0
 
     def attach(self):
         from .. import harness
@@ -337,38 +338,67 @@ def read_file(tape, box, exp, skipped, retry_on_timeout=False):
 
     if kind in ('Dc', 'Dl'):
         opening(b'OPEN "CAS1:%s" FOR INPUT AS 1' % name)
-        if kind == 'Dc':
-            data = exp['data']
-            pos = 0
-            got = b''
-            while pos < len(data):
-                k = min(255, len(data) - pos)
-                try:
-                    part = box.ev(b'INPUT$(%d, 1)' % k)
-                except harness.Internal:
-                    raise
+        # Read the contents back through a seeded mix of read primitives and chunk sizes; the concatenation of
+        # what they deliver must be exactly what was written (each piece is compared where it is read).
+        #   INPUT$(k,#1)   k = 1..255, not aligned to the 255-byte tape records, may run across line ends
+        #   LINE INPUT #1  (files written as lines) rest of the current line, consumes its CR
+        #   INPUT #1, S$   (only where the rest of the line is a plain token: no blanks, commas, quotes, controls)
+        #   EOF(1)         0 before every piece
+        data = exp['data']
+        tape.read_calls += 1
+        rrng = random.Random('c29read:%s:%s:%d' % (exp['kind'], exp['name'], tape.read_calls))
+        style = rrng.choice(['mixed', 'mixed', 'small', 'big', 'aligned'])
+        pos = 0
+        plain = set(b'abcdefghijklmnopqrstuvwxyzABCDEFGHIJKLMNOPQRSTUVWXYZ0123456789.;')
+        while pos < len(data):
+            e = box.ev(b'EOF(1)')
+            tape.res.count('eof_checks')
+            if e != 0:
+                tape.fail(tape.mech('read:data-file:eof-before-end-of-contents'), 'file %r: EOF=%r at byte %d of %d' % (name, e, pos, len(data)))
+            room = len(data) - pos
+            cr = data.find(b'\r', pos)
+            seg = data[pos:cr] if cr >= 0 else None
+            prim = 'chars'
+            if kind == 'Dl' and seg is not None:
+                x = rrng.random()
+                if x < 0.45:
+                    prim = 'line'
+                elif x < 0.65 and seg and all(c in plain for c in seg):
+                    prim = 'input'
+            if prim == 'chars':
+                if style == 'aligned':
+                    k = min(255, room)
+                elif style == 'small':
+                    k = min(room, rrng.choice([1, 1, 2, 3, 7, 20]))
+                elif style == 'big':
+                    k = min(room, rrng.choice([100, 128, 200, 254, 255, 255]))
+                else:
+                    k = min(room, rrng.choice([1, 2, 7, 50, 100, 128, 200, 254, 255, rrng.randint(1, 255)]))
+                before_rec, after_rec = pos // 255, (pos + k - 1) // 255
+                part = box.ev(b'INPUT$(%d, #1)' % k)
+                tape.res.count('inputstr_reads')
+                if after_rec != before_rec:
+                    tape.res.count('inputstr_reads_across_record_boundary')
                 if part is None:
                     tape.fail(tape.mech('read:data-file:shorter-than-written'),
-                              'file %r (%d bytes): INPUT$ failed after %d bytes' % (name, len(data), pos))
-                got += part
+                              'file %r (%d bytes): INPUT$(%d,#1) failed at byte %d' % (name, len(data), k, pos))
+                want = data[pos:pos + k]
+                if part != want:
+                    tape.fail(tape.mech('read:data-file:contents-differ:input$-chunk'),
+                              'file %r (%d bytes): INPUT$(%d,#1) at byte %d (tape records %d..%d) gave %r.., written %r..'
+                              % (name, len(data), k, pos, before_rec, after_rec, part[:24], want[:24]))
                 pos += k
-            if got != data:
-                tape.fail(tape.mech('read:data-file:contents-differ'),
-                          'file %r (%d bytes) read back differently, first difference at %d' % (
-                              name, len(data), next((i for i in range(min(len(got), len(data))) if got[i] != data[i]), min(len(got), len(data)))))
-        else:
-            for i, l in enumerate(exp['lines']):
-                e = box.ev(b'EOF(1)')
-                tape.res.count('eof_checks')
-                if e != 0:
-                    tape.fail(tape.mech('read:data-file:eof-before-last-line'), 'file %r: EOF=%r before line %d of %d' % (name, e, i, len(exp['lines'])))
-                out = box.ex(b'LINE INPUT #1, L$')
+            else:
+                out = box.ex(b'LINE INPUT #1, L$' if prim == 'line' else b'INPUT #1, L$')
                 code, _ = harness.err_of(out)
                 if code or out.strip():
-                    tape.fail(tape.mech('read:data-file:error-on-existing-line'), 'file %r line %d: %r' % (name, i, out))
+                    tape.fail(tape.mech('read:data-file:error-on-existing-line'), 'file %r at byte %d (%s): %r' % (name, pos, prim, out))
                 got = box.get('L$')
-                if got != l:
-                    tape.fail(tape.mech('read:data-file:contents-differ'), 'file %r line %d: wrote %r read %r' % (name, i, l[:40], got[:40]))
+                tape.res.count('line_input_reads' if prim == 'line' else 'input_hash_reads')
+                if got != seg:
+                    tape.fail(tape.mech('read:data-file:contents-differ:%s' % ('line-input' if prim == 'line' else 'input#')),
+                              'file %r at byte %d: wrote %r read %r' % (name, pos, seg[:40], got[:40]))
+                pos = cr + 1
         e = box.ev(b'EOF(1)')
         tape.res.count('eof_checks')
         if e != -1:
